@@ -250,6 +250,55 @@ func drawContent(t *rapid.T, proto string) string {
 	}
 }
 
+// TestBatchHuge: contents for which some or all candidates need more than 255 parts
+// (such a candidate is unusable; if none is usable the call must fail). Deterministic
+// grid, two shuffles each.
+func TestBatchHuge(t *testing.T) {
+	env := rec.Env()
+	rep := func(s string, n int) string {
+		b := make([]byte, 0, n*len(s))
+		for i := 0; i < n; i++ {
+			b = append(b, s...)
+		}
+		return string(b)
+	}
+	type req struct {
+		proto string
+		cands []int
+		text  string
+	}
+	var reqs []req
+	for _, n := range []int{17000, 20000, 34170, 34171, 39015, 39016, 40000} {
+		reqs = append(reqs,
+			req{"smpp", []int{0, 8}, rep("a", n)}, req{"smpp", []int{8, 0}, rep("a", n)}, req{"smpp", []int{8}, rep("a", n)},
+			req{"smpp", []int{99, 8, 1}, rep("a", n)}, req{"smpp", []int{0, 99}, rep("[", n/2)}, req{"smpp", []int{3, 1}, rep("a", n)},
+			req{"cmpp", []int{0, 8}, rep("a", n)}, req{"cmpp", []int{15, 8}, rep("a", n)}, req{"cmpp", []int{8, 0}, rep("中", n/2)},
+			req{"cmpp", []int{15, 9}, rep("中", n/2)}, req{"cmpp", []int{0}, rep("中", n/2)})
+	}
+	for i, r := range reqs {
+		if !env.Mine(i) {
+			continue
+		}
+		c := Case{Proto: r.proto, Candidates: r.cands, Ref: byte(i), Text: vk.Hex([]byte(r.text))}
+		idx := make([]int, len(r.cands))
+		for k := range idx {
+			idx[k] = len(r.cands) - 1 - k
+		}
+		c.Shuffles = [][]int{idx}
+		_, _, wantErr, usable := expect(c)
+		rec.Eval()
+		rec.NonTrivialConstructed(1)
+		rec.Class("huge_content")
+		if wantErr {
+			rec.Class("huge_content_error_expected")
+		}
+		if len(usable) < len(r.cands) {
+			rec.Class("huge_content_some_candidate_exceeds_255_parts")
+		}
+		rec.Report(t, "batch", check(c))
+	}
+}
+
 func TestBatch(t *testing.T) {
 	rec.RunProbes(t, reg)
 	rec.RunRegress(t, reg)
